@@ -47,7 +47,11 @@ func Placeholder(h *absint.Hole) string {
 	case "Float":
 		base = fmt.Sprintf("%d", 7000000+id)
 		if isFloat {
-			base += ".5"
+			if h.A.Facts["integral"] == "yes" {
+				base += ".0"
+			} else {
+				base += ".5"
+			}
 		}
 	case "GoLit":
 		base = fmt.Sprintf("%d", 7000000+id)
